@@ -97,16 +97,17 @@ impl FragmentTree {
     }
 
     /// convert back into fragments
-    fn into_nodes<MSG>(self) -> Vec<Node<MSG>> {
+    fn into_nodes<MSG>(self, scale: f32) -> Vec<Node<MSG>> {
         let mut nodes = vec![];
-        let mut fragment_node: Node<MSG> = self.fragment.fragment.into();
+        let mut fragment_node: Node<MSG> =
+            self.fragment.fragment.scale(scale).into();
         let _css_tag_len = self.css_tag.len();
         fragment_node =
             fragment_node.merge_attributes(vec![classes(self.css_tag)]);
 
         nodes.push(fragment_node);
         for child in self.enclosing {
-            nodes.extend(child.into_nodes())
+            nodes.extend(child.into_nodes(scale))
         }
         nodes
     }
@@ -115,12 +116,13 @@ impl FragmentTree {
     /// css class of the contain fragment
     pub(crate) fn fragments_to_node<MSG>(
         fragments: Vec<FragmentSpan>,
+        scale: f32,
     ) -> Vec<Node<MSG>> {
         let fragment_trees: Vec<FragmentTree> =
             Self::enclose_fragments(fragments);
         fragment_trees
             .into_iter()
-            .flat_map(|frag_tree| frag_tree.into_nodes())
+            .flat_map(|frag_tree| frag_tree.into_nodes(scale))
             .collect()
     }
 }
